@@ -47,10 +47,12 @@ def r1_nothing_dropped(ctx):
     for (j, s) in aggs.get("RewindLocal", []):
         sl = fg.back_from_operand(body, s["ops"][0])
         k = f.root + "|rewind-is-remote"
-        if sl.has_var(body, "remote"):
+        # `local` is extended with `remote` later on, so (flow-insensitively) local
+        # depends on remote; the remote side is the one that does NOT depend on local
+        if sl.has_var(body, "remote") and not sl.has_var(body, "local"):
             r.ok(k, cfg.loc(body, j), "RewindLocal payload is the remote side", work=len(sl.nodes))
         else:
-            r.violation(k, cfg.loc(body, j), "RewindLocal does not carry the remote events", work=len(sl.nodes))
+            r.violation(k, cfg.loc(body, j), "RewindLocal does not carry the remote events (it is built from `local`): the device rewinds and re-applies its own events and never adopts the server's order", work=len(sl.nodes))
         gate = None
         for i in live:
             bs = cfg.bool_switch(body, i)
